@@ -244,10 +244,18 @@ func (e *SpecEnv) eval(x SExpr) Val {
 			pv := e.eval(p)
 			pats = append(pats, pv.(Sc).T)
 		}
+		allPats := []string{strings.Join(pats, " ")}
+		for _, grp := range n.AltPats {
+			var ps []string
+			for _, p := range grp {
+				ps = append(ps, e.eval(p).(Sc).T)
+			}
+			allPats = append(allPats, strings.Join(ps, " "))
+		}
 		e.bound = saved
 		if n.Forall {
 			if len(pats) > 0 {
-				return scBool(tForall(vars, body, strings.Join(pats, " ")))
+				return scBool(tForall(vars, body, allPats...))
 			}
 			return scBool(tForall(vars, body))
 		}
